@@ -323,7 +323,13 @@ def _op_robust(ctx, op, state):
         # (with split2 the residual is what is left after the NNLS fit, whose charge the caller does not know)
         kw["boundary"] = float(sum(co for kind, co, _ in smooth if kind == "s") * np.sqrt(4 * np.pi))
     kw.update(gopts)  # forwarded to solve_poisson_bvp through **bvp_kwargs, same options as the plain solves of the run
-    oc = _outcome(lambda: solve_poisson_robust(g, rho, state["tf"], np.array([z]), c[None, :].copy(), split2=bool(o.get("split2")), **kw)(pts))
+    holder = {}
+
+    def call_robust():
+        holder["pot"] = solve_poisson_robust(g, rho, state["tf"], np.array([z]), c[None, :].copy(), split2=bool(o.get("split2")), **kw)
+        return holder["pot"](pts)
+
+    oc = _outcome(call_robust)
     fired = len(ctx.store.fired_log) > mark
     sig = f"{kind}:{z}"
     if oc[0] == "raise":
@@ -354,6 +360,9 @@ def _op_robust(ctx, op, state):
         if sp > max(SPREAD_BOUND, SPREAD_TOL_FACTOR * ctx.spec["grid"]["tol"]):
             ctx.violate("draw-dependence", "robust", sig, f"robust potential differs by {sp:.3g} between draws / after a faulted first load of the Coulomb table")
     state["results"][rk] = v
+    # the potential function handed out now belongs to the caller: it is re-evaluated at the end of the run
+    state.setdefault("held_pots", []).append((sig, holder["pot"], v.copy()))
+    del state["held_pots"][:-3]
     if kind == "core+smooth" and "rho1" in state["results"] and all(t[0] == "s" for t in ctx.spec["dens"]["rho1"]):
         # robust = analytic core + numerical residual: agrees with the plain solver on the smooth part
         d = float(np.max(np.abs(v - _potential(core, state["pts0"], c) - state["results"]["rho1"]))) / scale
@@ -364,6 +373,37 @@ def _op_robust(ctx, op, state):
         if d > bound:
             ctx.violate("robust-vs-plain", "robust", sig, f"robust(core+smooth) - core_analytic - plain(smooth) = {d:.3g}")
     ctx.log.add(ctx.step, "robust", sig, beh, bseed, hash_array(v))
+
+
+def _op_tweak_params(ctx, op, state):
+    """The caller loads the tabulated parameters of an element and renormalises ITS OWN copies in place."""
+    from grid.coulomb import load_atomic_gaussian_params
+
+    oc = _outcome(lambda: load_atomic_gaussian_params(op[1]))
+    if oc[0] == "raise":
+        ctx.log.add(ctx.step, "tweak_params", "load-failed", type(oc[1]).__name__)
+        return
+    cs, al = oc[1]
+    try:
+        cs *= 1.25
+        al[: max(1, len(al) // 2)] += 0.05
+    except ValueError:  # write-protected arrays: the edit is refused, fine
+        ctx.probes.hit("param-edit-refused")
+    ctx.probes.hit("caller-edited-its-loaded-parameters")
+    state["tweaked"] = True
+    ctx.log.add(ctx.step, "tweak_params", op[1])
+
+
+def _check_held_potentials(ctx, state, when):
+    for sig, pot, v0 in state.get("held_pots", []):
+        oc = _outcome(lambda: np.asarray(pot(state["pts"]), dtype=float))
+        if oc[0] == "raise":
+            ctx.violate("held-potential-raise", "robust", sig, f"a potential function returned earlier raises {oc[1]!r} when evaluated again ({when})")
+            continue
+        d = float(np.max(np.abs(oc[1] - v0))) / max(1.0, float(np.max(np.abs(v0))))
+        if d > 1e-12:
+            ctx.violate("held-potential-changed", "robust", sig, f"a potential function returned earlier by solve_poisson_robust now gives values differing by {d:.3g} ({when})")
+        ctx.probes.hit("held-potential-re-evaluated")
 
 
 def _op_perturb(ctx, op, state):
@@ -393,7 +433,7 @@ def _op_restart(ctx, op, state):
     ctx.log.add(ctx.step, "restart")
 
 
-OPS = {"solve": _op_solve, "ivp": _op_ivp, "robust": _op_robust, "perturb": _op_perturb, "arm": _op_arm, "heal": _op_heal, "restart": _op_restart}
+OPS = {"solve": _op_solve, "ivp": _op_ivp, "robust": _op_robust, "tweak_params": _op_tweak_params, "perturb": _op_perturb, "arm": _op_arm, "heal": _op_heal, "restart": _op_restart}
 
 
 class PoissonSeamEngine:
@@ -472,7 +512,9 @@ class PoissonSeamEngine:
             elif u < 0.80:
                 ops.append(["robust", rng.choice(["core", "core", "core+smooth"]), rng.choice(ROBUST_ELEMENTS), rng.choice(BEHAVIOURS), rng.randrange(1000),
                             {"shared_params": rng.random() < 0.7, "split2": rng.random() < 0.15}])
-            elif u < 0.88:
+            elif u < 0.84:
+                ops.append(["tweak_params", rng.choice(ROBUST_ELEMENTS)])
+            elif u < 0.89:
                 ops.append(["perturb", rng.randrange(300), rng.choice([None, 3])])
             elif u < 0.94:
                 ops.append(["arm", rng.choice(["eio", "enomem", "enoent", "short", "bitflip"]), rng.randrange(3), round(rng.random(), 3)])
@@ -529,6 +571,8 @@ class PoissonSeamEngine:
                 ctx.step += 1
                 OPS[op[0]](ctx, op, state)
             # the caller's one options dict must still be what the caller put there
+            ctx.store.heal()
+            _check_held_potentials(ctx, state, "end of run")
             if not np.array_equal(state["pts"], state["pts0"]):
                 ctx.violate("points-changed", "final", "points", "the evaluation-point array handed to the returned potentials was modified (later answers were computed at other points)")
             if state["params"] != state["params0"]:
